@@ -210,6 +210,12 @@ func Open(ctx context.Context, S3 S3Interface, cfg Config, opts OpenOptions, whe
 		if err != nil {
 			return nil, err
 		}
+		// A version that was listed as current may have been merged by
+		// another client and retired to root/merged/ by the time it is
+		// fetched; it is still a committed version and must not be taken
+		// for a missing one (that would hide its rows, up to showing an
+		// empty table).
+		persists = []mast.Persist{rootPersist, mergedPersist}
 		skipUnreadable = true
 	}
 	tree, mergedRoots, unmergeableRoots, err = mergeRoots(ctx, versionsToLoad, cfg, crdtConfig, persists, when, opts.ForceRebranch, &kvVersion, skipUnreadable)
